@@ -60,6 +60,9 @@ inductive Prog where
   | load (key : Key) (k : Except LErr Val → Prog)
   | getCached (key : Key) (k : Option Val → Prog)
   | loadOwned (key : Key) (k : Except LErr Val → Prog)
+  /-- `get_or_insert(id, v)` from inside a loader: the value of the entry found, or `v` stored as a new
+  (non-dynamic) entry -/
+  | getOrInsert (key : Key) (v : Val) (k : Val → Prog)
   | noRecord (body : Prog) (k : Except LErr Val → Prog)
   | onThread (body : Prog) (k : Except LErr Val → Prog)
   /-- loader-invocation checkpoint of the fault plan: `some true` = panic here, `some false` = fail here -/
